@@ -61,7 +61,7 @@ class CGenerator:
 
     def visit_ArrayRef(self, n: c_ast.ArrayRef) -> str:
         arrref = self._parenthesize_unless_simple(n.name)
-        return arrref + "[" + self.visit(n.subscript) + "]"
+        return arrref + "[" + self._visit_full_expr(n.subscript) + "]"
 
     def visit_StructRef(self, n: c_ast.StructRef) -> str:
         sref = self._parenthesize_unless_simple(n.name)
@@ -176,6 +176,14 @@ class CGenerator:
         assignment or comma expression can only be there in parentheses.
         """
         return self._parenthesize_if(n, lambda d: isinstance(d, c_ast.Assignment))
+
+    def _visit_full_expr(self, n: c_ast.Node) -> str:
+        # An expression slot that is delimited by the construct itself
+        # (subscript, condition, return value...): only a statement
+        # expression needs its own parentheses there.
+        if isinstance(n, c_ast.Compound):
+            return "(" + self.visit(n) + ")"
+        return self.visit(n)
 
     def _visit_expr(self, n: c_ast.Node) -> str:
         match n:
@@ -295,7 +303,7 @@ class CGenerator:
     def visit_Return(self, n: c_ast.Return) -> str:
         s = "return"
         if n.expr:
-            s += " " + self.visit(n.expr)
+            s += " " + self._visit_full_expr(n.expr)
         return s + ";"
 
     def visit_Break(self, n: c_ast.Break) -> str:
@@ -313,7 +321,7 @@ class CGenerator:
     def visit_If(self, n: c_ast.If) -> str:
         s = "if ("
         if n.cond:
-            s += self.visit(n.cond)
+            s += self._visit_full_expr(n.cond)
         s += ")\n"
         s += self._generate_stmt(n.iftrue, add_indent=True)
         if n.iffalse:
@@ -324,13 +332,13 @@ class CGenerator:
     def visit_For(self, n: c_ast.For) -> str:
         s = "for ("
         if n.init:
-            s += self.visit(n.init)
+            s += self._visit_full_expr(n.init)
         s += ";"
         if n.cond:
-            s += " " + self.visit(n.cond)
+            s += " " + self._visit_full_expr(n.cond)
         s += ";"
         if n.next:
-            s += " " + self.visit(n.next)
+            s += " " + self._visit_full_expr(n.next)
         s += ")\n"
         s += self._generate_stmt(n.stmt, add_indent=True)
         return s
@@ -338,7 +346,7 @@ class CGenerator:
     def visit_While(self, n: c_ast.While) -> str:
         s = "while ("
         if n.cond:
-            s += self.visit(n.cond)
+            s += self._visit_full_expr(n.cond)
         s += ")\n"
         s += self._generate_stmt(n.stmt, add_indent=True)
         return s
@@ -348,7 +356,7 @@ class CGenerator:
         s += self._generate_stmt(n.stmt, add_indent=True)
         s += self._make_indent() + "while ("
         if n.cond:
-            s += self.visit(n.cond)
+            s += self._visit_full_expr(n.cond)
         s += ");"
         return s
 
@@ -362,7 +370,7 @@ class CGenerator:
         return s
 
     def visit_Switch(self, n: c_ast.Switch) -> str:
-        s = "switch (" + self.visit(n.cond) + ")\n"
+        s = "switch (" + self._visit_full_expr(n.cond) + ")\n"
         s += self._generate_stmt(n.stmt, add_indent=True)
         return s
 
